@@ -100,15 +100,15 @@ Print Assumptions C17_args_sound_partial.
 (* Full statement:  forall tokens, classify ... tokens = PAllow -> sound ... tokens (py_cmdline tokens).
    False of the faithful model - and of the implementation (each witness is replayed on the real
    classify and the real interpreter by harness/c17.py): clustered short options, -x, "-", "--", and
-   option ARGUMENTS mistaken for options. *)
+   option ARGUMENTS mistaken for options, -m examined before -i. *)
 Theorem C17_args_sound_refuted :
   unsound [$"python"; $"-"; $"s.py"] /\ unsound [$"python"; $"-Bi"; $"s.py"] /\
   unsound [$"python"; $"-x"; $"s.py"] /\ unsound [$"python"; $"-Bc"; $"s.py"] /\
   unsound [$"python"; $"-W"; $"-h"; $"evil.py"] /\ unsound [$"python"; $"-W"; $"-m"; $"calendar"] /\
-  unsound [$"python"; $"--"; $"-h"].
+  unsound [$"python"; $"--"; $"-h"] /\ unsound [$"python"; $"-i"; $"-m"; $"calendar"].
 Proof.
   exact (conj refuted_stdin (conj refuted_cluster_i (conj refuted_skip_line (conj refuted_cluster_c
-        (conj refuted_arg_help (conj refuted_arg_m refuted_ddash)))))).
+        (conj refuted_arg_help (conj refuted_arg_m (conj refuted_ddash refuted_i_m))))))).
 Qed.
 Print Assumptions C17_args_sound_refuted.
 
